@@ -69,7 +69,13 @@ def check_expected_identifier(token):
 
 
 def parse_script(script, filename="-"):
-    return parse(Lexer(script, filename).scan())
+    lexer = Lexer(script, filename).scan()
+    try:
+        return parse(lexer)
+    except RecursionError:
+        raise CklSyntaxError(
+            "Expression nested too deeply", lexer.getPos()
+        ) from None
 
 
 def parse(lexer):
